@@ -582,6 +582,8 @@ impl VioBook {
 pub struct Supervisor {
     cell: *mut u64,
     pub progress: Progress,
+    /// the parent's heap has been consolidated (see `fork_run_once`)
+    trimmed: std::cell::Cell<bool>,
 }
 
 pub enum ForkOutcome {
@@ -614,7 +616,7 @@ impl Supervisor {
         if p == libc::MAP_FAILED {
             vp_core::machinery_error("mmap of progress cell failed");
         }
-        Supervisor { cell: p as *mut u64, progress: Progress { ptr: p as *mut u64 } }
+        Supervisor { cell: p as *mut u64, progress: Progress { ptr: p as *mut u64 }, trimmed: std::cell::Cell::new(false) }
     }
 
     fn read_cell(&self) -> (u64, u64) {
@@ -638,6 +640,13 @@ impl Supervisor {
         body: &mut dyn FnMut(u64, u64, &Progress) -> Json,
     ) -> ForkOutcome {
         use std::os::fd::{FromRawFd, RawFd};
+        // Building the case sets leaves millions of freed small chunks in the parent's heap.
+        // A forked child would consolidate them on its first large allocation, touching
+        // (copy-on-write) the whole heap: 10+ CPU seconds that the watchdog would charge to
+        // the child's first case. Consolidate once here instead.
+        if !self.trimmed.replace(true) {
+            unsafe { libc::malloc_trim(0) };
+        }
         self.reset_cell();
         let mut fds: [RawFd; 2] = [0; 2];
         if unsafe { libc::pipe2(fds.as_mut_ptr(), libc::O_CLOEXEC) } != 0 {
@@ -656,6 +665,12 @@ impl Supervisor {
                     libc::dup2(errfd, 2);
                 }
                 libc::close(fds[0]);
+            }
+            // warm-up: a large allocation makes the allocator do its post-fork housekeeping
+            // before the first case is announced in the progress cell
+            {
+                let v: Vec<u8> = vec![1u8; 1 << 20];
+                std::hint::black_box(&v);
             }
             let res = std::panic::catch_unwind(std::panic::AssertUnwindSafe(|| body(from, to, &self.progress)));
             let j = match res {
@@ -717,8 +732,22 @@ impl Supervisor {
                 cpu_at_change = child_cpu_ticks(pid);
             } else if last_change.elapsed() > case_timeout {
                 let cpu = child_cpu_ticks(pid);
-                if cpu.saturating_sub(cpu_at_change) >= cpu_limit_ticks {
+                // before the first case is announced (cell index 0) the child is still starting
+                // up: allow twelve case budgets of CPU for that
+                let limit = if last.0 == 0 { cpu_limit_ticks * 12 } else { cpu_limit_ticks };
+                if cpu.saturating_sub(cpu_at_change) >= limit {
                     timed_out = true;
+                    if std::env::var("VERIF_PROGRESS").is_ok() {
+                        let mut out = format!("[drv] TIMEOUT pid {pid} range {from}..{to} cell {:?} last {:?} cpu since change {} wall since change {:?}\n", self.read_cell(), last, cpu.saturating_sub(cpu_at_change), last_change.elapsed());
+                        for k in 0..3 {
+                            let bt = std::process::Command::new("gdb").args(["-p", &pid.to_string(), "-batch", "-ex", "bt 12"]).output();
+                            if let Ok(o) = bt {
+                                out.push_str(&format!("--- sample {k}: cell {:?} cpu {}\n{}\n", self.read_cell(), child_cpu_ticks(pid), String::from_utf8_lossy(&o.stdout)));
+                            }
+                            std::thread::sleep(Duration::from_millis(700));
+                        }
+                        let _ = std::fs::write(format!("/tmp/verif-timeout-{pid}.txt"), out);
+                    }
                     unsafe { libc::kill(pid, libc::SIGKILL) };
                     break;
                 }
